@@ -451,3 +451,9 @@ def c06_7(R):
             R.fail([oa.name, nm, "not-under(ack_nr>=recovery_point)", ",".join(sorted(d for d in descs if "PartialOrd" in d))], "the %s transition is no longer taken exactly when the cumulative ACK reaches the recovery point" % nm, where=s_.where(), instance="recovery-episode-end")
     rcv = [t for t in oa.calls() if call_matches(t, ("CongestionController::on_recovered",))]
     R.floor("on_recovered call", len(rcv), 1)
+    back = {s_.bb for s_ in oa.stmts() if written_field(oa, s_) == "Recovery.phase" and s_.rv.ops and "CountingDuplicates" in classify(oa, s_.rv.ops[0])}
+    for t in rcv:
+        if back and must_pass_blocks(oa, oa.return_blocks(), back, start=t.j["target"])[0]:
+            R.ok("recovered=>episode-closed", oa.name, "on_recovered is followed by phase = CountingDuplicates on every path")
+        else:
+            R.fail([oa.name, "on_recovered-without(phase=CountingDuplicates)"], "the congestion controller is told the recovery is over but the recovery phase is kept: every later ACK 'recovers' again and new data stays governed by the recovery window", where=t.where(), instance="recovered=>episode-closed")
